@@ -19,11 +19,12 @@ Fixpoint str_to_nat_aux (s : list N) (acc : nat) : nat :=
 Definition str_to_nat (s : list N) : nat := str_to_nat_aux s 0%nat.
 
 (* formatting table: flat triples fmt, tok, text *)
-Fixpoint ftab_get (t : list (list N)) (f k : list N) : list N :=
+Fixpoint ftab_get_raw (t : list (list N)) (f k : list N) : list N :=
   match t with
-  | a :: b :: c :: t' => if str_eqb a f && str_eqb b k then c else ftab_get t' f k
+  | a :: b :: c :: t' => if str_eqb a f && str_eqb b k then c else ftab_get_raw t' f k
   | _ => 63 :: f ++ 63 :: k
   end.
+Definition ftab_get (t : list (list N)) (f k : list N) : list N := ftab_get_raw t f (strip k).
 Definition PI_KEY : list N := [1; 80; 73].
 Definition diff_key (b a : list N) : list N := [1; 68] ++ b ++ [1] ++ a.
 
@@ -59,37 +60,101 @@ Definition index_initial_of (l : las) : option (list cell) :=
   | _ => Some (nth 0%nat (l_data l) [])
   end.
 
-(* input: ropts FS wopts FS nwrites FS text FS <tab...> FS MARK FS <ftab...>
-   output: text of each write joined by RS-RS, then the snapshot after the last write *)
-Fixpoint write_n (fmtv : list N -> list N -> list N) (fd : list N -> list N -> list N) (fp : list N -> list N)
-         (fs : list N -> list N) (fz : list N -> bool) (ne : list N -> list N -> bool)
-         (o : wopts) (n : nat) (m : mlas) (acc : list N) : list N * option mlas :=
-  match n with
-  | O => (acc, Some m)
-  | S n' =>
-      match write fmtv fd fp fs fz ne o m with
-      | WOk text m' => write_n fmtv fd fp fs fz ne o n' m' (acc ++ text ++ [RS; RS])
-      | WErr e => (acc ++ show_werr e, None)
+(* ---- pipelines: a text is read, edited in memory, written, re-read, ... --------------------
+   input:  ops FS text FS <tab...> FS MARK FS <ftab...>
+   ops:    OPS-separated; each op is a letter and a payload:
+             R<ropts code>            read the current text (replaces the in-memory LASFile)
+             W<wopts code>            write the current LASFile (output collected; LASFile updated)
+             EN                       set index_initial to None (a LASFile built from scratch)
+             ES<j> IS tok IS2 tok ... replace the data of curve j by these tokens
+             EV<sect> IS mnem IS text set section[mnem].value = text   (sect in V W C P)
+   output: every written text followed by RS RS, then the snapshot of the LASFile at the end,
+           or an ERR marker at the point of failure. *)
+Definition OPS : N := 57348.
+
+Inductive pstate_ := PText (t : list N) | PLas (t : list N) (m : mlas).
+
+Definition set_nth {A} (n : nat) (x : A) (l : list A) : list A := firstn n l ++ x :: skipn (S n) l.
+
+Definition edit_setcol (t : list (list N)) (j : nat) (toks : list (list N)) (m : mlas) : mlas :=
+  let l := m_las m in
+  let cells := List.map (fun k => match tab_hex t k with Some _ => mk_num (tab_hex t) k | None => CStr k end) toks in
+  let ncur := List.length (s_items (l_curves l)) in
+  let data := List.map (fun i => nth i (l_data l) []) (seq 0 ncur) in
+  mkmlas (mklas (l_version l) (l_well l) (l_curves l) (l_params l) (l_other l) (l_custom l)
+                (set_nth j cells data) (l_engine_numpy l)) (m_index_initial m).
+
+Definition edit_setval (sect mn v : list N) (m : mlas) : mlas :=
+  let l := m_las m in
+  let upd (s : section) : section :=
+    match update_first (s_transforms s) mn (fun it => set_value it (VStr v)) (s_items s) with
+    | Some r => mksect r (s_transforms s) | None => s end in
+  let l' := match sect with
+            | [86] => with_version l (upd (l_version l))
+            | [87] => with_well l (upd (l_well l))
+            | [67] => with_curves l (upd (l_curves l))
+            | _ => with_params l (upd (l_params l))
+            end in
+  mkmlas l' (m_index_initial m).
+
+Section Pipe.
+Variable t : list (list N).
+Variable ft : list (list N).
+
+Definition p_write (o : wopts) (m : mlas) : wres :=
+  let fz k := match tab_hex t k with Some h => hex_is_zero h | None => false end in
+  let hx k := match tab_hex t k with Some h => h | None => [63] end in
+  write (ftab_get ft) (fun b a => ftab_get ft (s2l "%.5f") (diff_key (hx b) (hx a)))
+        (fun f => ftab_get ft f PI_KEY) (tab_str t) fz (tab_numeq t) o m.
+
+Fixpoint run_ops (ops : list (list N)) (st : pstate_) (acc : list N) : list N :=
+  match ops with
+  | [] => match st with
+          | PLas _ m => acc ++ show_las t false (m_las m)
+          | PText _ => acc
+          end
+  | op :: rest =>
+      match op with
+      | 82 :: code =>                                     (* R *)
+          let txt := match st with PText x => x | PLas x _ => x end in
+          let (ro, _) := opt_of code in
+          match read (tab_hex t) (tab_str t) (tab_numeq t) ro txt with
+          | RErr e => acc ++ show_err e
+          | ROk l => run_ops rest (PLas txt (mkmlas l (index_initial_of l))) acc
+          end
+      | 87 :: code =>                                     (* W *)
+          match st with
+          | PText _ => acc ++ s2l "ERR:nolas"
+          | PLas _ m =>
+              match p_write (wopts_of code) m with
+              | WOk text m' => run_ops rest (PLas text m') (acc ++ text ++ [RS; RS])
+              | WErr e => acc ++ show_werr e
+              end
+          end
+      | 69 :: 78 :: _ =>                                  (* EN *)
+          match st with
+          | PLas x m => run_ops rest (PLas x (mkmlas (m_las m) None)) acc
+          | _ => acc ++ s2l "ERR:nolas"
+          end
+      | 69 :: 83 :: payload =>                            (* ES *)
+          match st, split_char IS payload with
+          | PLas x m, [j; toks] => run_ops rest (PLas x (edit_setcol t (str_to_nat j) (split_char IS2 toks) m)) acc
+          | _, _ => acc ++ s2l "ERR:badop"
+          end
+      | 69 :: 86 :: payload =>                            (* EV *)
+          match st, split_char IS payload with
+          | PLas x m, [sect; mn; v] => run_ops rest (PLas x (edit_setval sect mn v m)) acc
+          | _, _ => acc ++ s2l "ERR:badop"
+          end
+      | _ => acc ++ s2l "ERR:badop"
       end
   end.
+End Pipe.
 
-Definition run_write (i : list N) : list N :=
+Definition run_pipeline (i : list N) : list N :=
   match fields i with
-  | rcode :: wcode :: nw :: text :: rest =>
+  | ops :: text :: rest =>
       let (t, ft) := split_at_mark rest [] in
-      let (ro, _) := opt_of rcode in
-      match read (tab_hex t) (tab_str t) (tab_numeq t) ro text with
-      | RErr e => show_err e
-      | ROk l =>
-          let fz k := match tab_hex t k with Some h => hex_is_zero h | None => false end in
-          let hx k := match tab_hex t k with Some h => h | None => [63] end in
-          let (out, m) := write_n (ftab_get ft) (fun b a => ftab_get ft (s2l "%.5f") (diff_key (hx b) (hx a)))
-                                  (fun f => ftab_get ft f PI_KEY) (tab_str t) fz (tab_numeq t)
-                                  (wopts_of wcode) (str_to_nat nw) (mkmlas l (index_initial_of l)) [] in
-          match m with
-          | Some m' => out ++ show_las t false (m_las m')
-          | None => out
-          end
-      end
+      run_ops t ft (split_char OPS ops) (PText text) []
   | _ => []
   end.
